@@ -497,6 +497,12 @@ func lexBegin(l *lexer) stateFunc {
 		return nil
 	}
 
+	// a statement keyword with a prefix is an extension, also when the prefix
+	// begins like a keyword of YANG (keys:e, leafy:e)
+	if end := strings.IndexFunc(l.input[l.pos:], func(r rune) bool { return !isIdent(r) }); end > 0 && isPrefixedIdent(l.input[l.pos:l.pos+end]) {
+		return lexExtension(l)
+	}
+
 	// FORMAT: xxx zzz { ...
 	// order from longest keyword to shorted to ensure "foobar" doesn't get picked
 	// up as "foo"
@@ -755,6 +761,10 @@ func lexBegin(l *lexer) stateFunc {
 	//  abc:def ident { ... };
 	//  abc:def;
 	//  abc:def [number|string|ident] [number|string|ident] ...;
+	return lexExtension(l)
+}
+
+func lexExtension(l *lexer) stateFunc {
 	if l.acceptToken(token_unknown) {
 		for {
 			if l.acceptToken(token_semi) {
